@@ -25,6 +25,17 @@ from cs_util import *  # noqa: E402,F401,F403
 import cs_world as W  # noqa: E402
 import cs_oracle as O  # noqa: E402
 import cs_plan as P  # noqa: E402
+import cs_ui as UI  # noqa: E402
+
+_load_corpus_plain = load_corpus
+
+
+def load_corpus():  # noqa: F811
+    """The committed catalogue plus the list of upstream UI applications found in /repo."""
+    c = _load_corpus_plain()
+    c["ui_apps"] = UI.list_apps()
+    return c
+
 
 WORKERS = max(1, min(N_SLOTS, int(os.environ.get("COMPSIM_WORKERS", str(N_SLOTS)))))
 WARM_BPS = ["v02_flat", "v03_nested", "v05_domains", "v06_dep", "v08_explicit", "v11_flat_permuted"]
@@ -133,12 +144,14 @@ def prepare(need_goldens=(), allow_slow=True):
     bpdump = build_bpdump(base)
     binsha = sha256_file(pavexc)
     inputs = repo_inputs_digest()
-    key = sha256_bytes(f"{binsha}|{fixture_digest(base)}|{sha256_file(SHIM_SRC)}|{FORMAT_VERSION}|{inputs}".encode())[:16]
+    uidig = UI.ui_digest() if corpus["ui_apps"] else "-"
+    key = sha256_bytes(f"{binsha}|{fixture_digest(base)}|{sha256_file(SHIM_SRC)}|{FORMAT_VERSION}|{inputs}|{uidig}".encode())[:16]
     state_dir = os.path.join(WORK, "state", key)
     os.makedirs(state_dir, exist_ok=True)
     ctx = Ctx()
     ctx.pavexc, ctx.binsha, ctx.key, ctx.state_dir, ctx.corpus, ctx.base = pavexc, binsha, key, state_dir, corpus, base
     ctx.inputs = inputs
+    ctx.uidig = uidig
     lock = open(os.path.join(WORK, "state", key + ".lock"), "w")
     fcntl.flock(lock, fcntl.LOCK_EX)
     try:
@@ -146,6 +159,8 @@ def prepare(need_goldens=(), allow_slow=True):
         missing = sorted(set(corpus["blueprints"]) - set(names))
         if missing:
             harness_error(f"bpdump did not produce {missing}")
+        if corpus["ui_apps"]:
+            UI.build_template(state_dir, corpus["ui_apps"], log)
         # the RON must be the same as the memoised one (same tree => same schema)
         ctx.world = W.World(pavexc, state_dir, corpus, base)
         ctx.world.compute_golden = lambda bp, tog: compute_goldens(ctx, [(bp, tuple(tog))])
@@ -191,6 +206,10 @@ def build_snapshots(ctx):
         h = {"id": "snapshot", "init_cache": "empty", "golden": True,
              "steps": [{"op": "exec", "proj": "p0", "mode": "generate", "bp": bp, "hash_seed": 0, "diag": None, "timeout": 1800}
                        for bp in WARM_BPS]}
+        if ctx.corpus["ui_apps"]:
+            # the UI workspace enables another feature set of `pavex`: have its docs in the warm caches too
+            h["steps"].append({"op": "exec", "proj": "ui", "mode": "generate", "bp": "ui:" + ctx.corpus["ui_apps"][0]["pkg"],
+                               "hash_seed": 0, "diag": None, "timeout": 1800})
         run = W.HistoryRun(ctx.world, slot, h).run()
         for ex in run["execs"]:
             if ex["exit"] != 0:
@@ -260,12 +279,60 @@ def ensure_slot_targets(ctx):
 
         with ThreadPoolExecutor(4) as ex:
             list(ex.map(one, todo))
+    if ctx.corpus["ui_apps"]:
+        ensure_ui_targets(ctx)
+
+
+def ensure_ui_targets(ctx):
+    """Slots 0..N_UI_SLOTS-1 own a cargo target dir for the UI workspace. The path dependencies of
+    that workspace live under the slot (<slot>/ui/R/runtime/pavex is a symlink into /repo), so cargo
+    builds them once per slot: every slot is warmed here, by one throw-away execution, each time the
+    memoised state changes; no measured execution pays for it."""
+    n = min(UI.N_UI_SLOTS, WORKERS)
+    src = W.Slot(0).target("ui")
+    first = ctx.corpus["ui_apps"][0]["pkg"]
+
+    def warm(i):
+        s = W.Slot(i)
+        marker = os.path.join(s.target("ui"), ".warm")
+        if os.path.exists(marker) and open(marker).read() == ctx.key:
+            return
+        s.acquire()
+        try:
+            if i != 0 and not os.path.isdir(os.path.join(s.target("ui"), "debug")) and os.path.isdir(os.path.join(src, "debug")):
+                tmp = s.target("ui") + ".tmp"
+                W.rmtree(tmp)
+                W.cp_a(src, tmp)
+                W.rmtree(s.target("ui"))
+                os.rename(tmp, s.target("ui"))
+            h = {"id": "warm-ui-target", "init_cache": "warm", "golden": True,
+                 "steps": [{"op": "exec", "proj": "ui", "mode": "generate", "bp": "ui:" + first, "hash_seed": 0, "diag": None,
+                            "timeout": 1800}]}
+            run = W.HistoryRun(ctx.world, s, h).run()
+            if run["execs"][0]["timed_out"]:
+                harness_error("warming the UI target dir timed out")
+            with open(marker, "w") as f:
+                f.write(ctx.key)
+        finally:
+            s.release()
+
+    todo = [i for i in range(n) if not (os.path.exists(os.path.join(W.Slot(i).target("ui"), ".warm")) and
+                                        open(os.path.join(W.Slot(i).target("ui"), ".warm")).read() == ctx.key)]
+    if not todo:
+        return
+    log(f"warming the UI cargo target dir of {len(todo)} slot(s) ...")
+    if 0 in todo:
+        warm(0)
+        todo.remove(0)
+    with ThreadPoolExecutor(8) as ex:
+        list(ex.map(warm, todo))
 
 
 def golden_history(bp, tog):
+    proj = "ui" if bp.startswith("ui:") else "p0"
     return {"id": f"golden:{bp}:{state_key(tog)}", "arm": "golden", "golden": True, "init_cache": "nodep",
             "init_toggles": {"p0": list(tog)},
-            "steps": [{"op": "exec", "proj": "p0", "mode": "generate", "bp": bp, "hash_seed": 0, "diag": "diag.dot",
+            "steps": [{"op": "exec", "proj": proj, "mode": "generate", "bp": bp, "hash_seed": 0, "diag": "diag.dot",
                        "timeout": 3 * W.DEFAULT_TIMEOUT}]}
 
 
@@ -280,9 +347,9 @@ def store_golden(ctx, slot, bp, tog, ex):
     # An abnormal end (panic, signal) of the clean-world run is recorded as it is: it gives no reference
     # verdict, and the same abnormal end shows up in ordinary histories as a C09 violation.
     if ex["exit"] == 0:
-        ws = slot.proj("p0")
+        real = W.HistoryRun(ctx.world, slot, {"id": "-", "steps": []}).layout(ex["proj"], bp)["real"]
         for rel in ("sdk/Cargo.toml", "sdk/src/lib.rs", "Cargo.toml", "diag.dot"):
-            data = open(os.path.join(ws, rel), "rb").read()
+            data = open(real(rel), "rb").read()
             files[rel] = sha256_bytes(data)
             with open(os.path.join(tmp, rel.replace("/", "__")), "wb") as f:
                 f.write(data)
@@ -328,7 +395,7 @@ def compute_goldens(ctx, todo):
 
 def run_batch(ctx, histories, label="batch"):
     """Static LPT assignment of histories to slots; one worker per slot. Returns {history id: run}."""
-    queues = P.assign_slots(histories, WORKERS, min(N_SIBLING_SLOTS, WORKERS))
+    queues = P.assign_slots(histories, WORKERS, min(N_SIBLING_SLOTS, WORKERS), min(UI.N_UI_SLOTS, WORKERS))
     results = {}
     rlock = threading.Lock()
     errors = []
@@ -574,7 +641,7 @@ def cmd_check(prop, tier):
             t = copy.deepcopy(h)
             t["id"] = h["id"] + "-twin"
             twins.append(t)
-    queues = P.assign_slots(hists, WORKERS, min(N_SIBLING_SLOTS, WORKERS))
+    queues = P.assign_slots(hists, WORKERS, min(N_SIBLING_SLOTS, WORKERS), min(UI.N_UI_SLOTS, WORKERS))
     slot_of = {h["id"]: s for s, q in queues.items() for h in q}
     t_run0 = time.time()
     results = run_batch(ctx, hists, f"{prop} {tier}")
@@ -667,7 +734,9 @@ def cmd_check(prop, tier):
                           "observed": {}, "expected": {}, "history": run["id"], "hash_seed": e["step"]["hash_seed"],
                           "bp": e["step"]["bp"], "_run": run})
         else:
-            harness_error(f"execution {run['id']}#{e['n']} took {e['cpu_s']} s CPU once but not on replay (machine noise?)")
+            # e.g. the first execution after a change to /repo/runtime recompiles the path dependencies
+            # inside `cargo rustdoc`: slow once, not a property of pavexc. Recorded, not reported.
+            observations["cpu_outlier_not_reproduced"] = observations.get("cpu_outlier_not_reproduced", 0) + 1
     timeouts = [x for x in viols if x["signature"] == "wall-clock-timeout"]
     for x in timeouts:
         run = x["_run"]
@@ -701,7 +770,10 @@ def cmd_check(prop, tier):
         x = xs[0]
         run = x["_run"]
         slot = run["slot"]
-        return key, x, minimise(ctx, run, x, slot, budget)
+        # every candidate of a non-terminating execution costs a full wall-clock limit: only cut the
+        # history after the failing execution and confirm that it replays
+        b = 1 if key[1] == "wall-clock-timeout" else budget
+        return key, x, minimise(ctx, run, x, slot, b)
 
     # different groups are minimised in parallel only when they sit on different slots
     mins = {}
